@@ -79,6 +79,10 @@ fn check_with_map<'a, B: DecisionNNFBuilder<'a>>(
     // conditioning the result and its negation on every literal
     for (which, p, f) in [("result", d, want), ("negated result", d.neg(), tt::not(want, nv))] {
         for v in 0..nv {
+            // only variables of the manager (a sparse label map may name labels beyond the CNF's width)
+            if map[v] >= cnf.num_vars() {
+                continue;
+            }
             for val in [true, false] {
                 let r = match guarded(|| b.condition(p, VarLabel::new(map[v] as u64), val)) {
                     Ok(r) => r,
